@@ -13,7 +13,8 @@ package ja3
 //@ pure func dashIf(s string) string = ite(len(s) > 0, s ++ "-", s)
 
 //@ -- the JA3 string of a parsed ClientHello, from the property statement
-//@ pure func ja3str(h *tlsx.ClientHelloBasic) string = dec(h.HandshakeVersion) ++ "," ++ joinK(h.CipherSuites, len(h.CipherSuites)) ++ "," ++ joinK(h.AllExtensions, len(h.AllExtensions)) ++ "," ++ joinK(h.SupportedGroups, len(h.SupportedGroups)) ++ "," ++ joinA(h.SupportedPoints, len(h.SupportedPoints))
+//@ pure func ja3fields(ver int, cs seq[uint16], es seq[uint16], gs seq[uint16], ps seq[uint8]) string = dec(ver) ++ "," ++ joinK(cs, len(cs)) ++ "," ++ joinK(es, len(es)) ++ "," ++ joinK(gs, len(gs)) ++ "," ++ joinA(ps, len(ps))
+//@ pure func ja3str(h *tlsx.ClientHelloBasic) string = ja3fields(h.HandshakeVersion, h.CipherSuites, h.AllExtensions, h.SupportedGroups, h.SupportedPoints)
 
 //@ globalinv [C01:grease-table] greaseValues != nil && (forall v uint16 :: (mapHas(greaseValues, v) && mapGet(greaseValues, v)) <==> grease(v))
 //@ globalinv [C01:separators] sepValueByte == 45 && sepFieldByte == 44
